@@ -32,6 +32,8 @@ import (
 	"sync"
 	"time"
 
+	agentconfig "github.com/andydunstall/piko/agent/config"
+	"github.com/andydunstall/piko/agent/reverseproxy"
 	"github.com/andydunstall/piko/pkg/log"
 	"github.com/andydunstall/piko/server/cluster"
 	"github.com/andydunstall/piko/server/config"
@@ -213,6 +215,7 @@ type stack struct {
 	timeout time.Duration
 	rec     *recorder
 	a, b    *pnode
+	agent   string // address of an agent/reverseproxy.Server in front of the recorder
 }
 
 const (
@@ -261,6 +264,18 @@ func newStack(timeout time.Duration) *stack {
 		Endpoints: map[string]int{epDead: 1}})
 	mgrA := upstream.NewLoadBalancedManager(csA, nil)
 	s.a = startNode(mgrA, lnA, timeout)
+
+	// the agent's HTTP reverse proxy (same timeout / error handler / gin wrapping code)
+	lnG, err := net.Listen("tcp", "127.0.0.1:0")
+	if err != nil {
+		panic(err)
+	}
+	aconf := agentconfig.ListenerConfig{EndpointID: "agent", Addr: "http://" + recAddr, Timeout: timeout}
+	aconf.AccessLog.Disable = true
+	aconf.AccessLog.Level = "info"
+	asrv := reverseproxy.NewServer(aconf, reverseproxy.NewMetrics("verif"), log.NewNopLogger())
+	go func() { _ = asrv.Serve(lnG) }()
+	s.agent = lnG.Addr().String()
 	return s
 }
 
@@ -350,8 +365,11 @@ func parseKVs(ws []string) []kv {
 }
 
 func (e *httpEngine) addr(path string) string {
-	if path == "fwd" {
+	switch path {
+	case "fwd":
 		return e.cur.a.addr
+	case "agent":
+		return e.cur.agent
 	}
 	return e.cur.b.addr
 }
@@ -360,14 +378,14 @@ func (e *httpEngine) addr(path string) string {
 // Lean model): the client's headers, canonical names, minus hop-by-hop names, minus the names
 // listed in Connection (except piko's own names, which piko protects), minus the names the
 // proxy chain owns.
-func expectedVisible(hs []kv) []string {
+func expectedVisible(hs []kv, protectPiko bool) []string {
 	conn := map[string]bool{}
 	for _, h := range hs {
 		if textproto.CanonicalMIMEHeaderKey(h.k) == "Connection" {
 			for _, t := range strings.Split(h.v, ",") {
 				t = strings.TrimSpace(t)
 				lt := strings.ToLower(t)
-				if t != "" && lt != "x-piko-forward" && lt != "x-piko-endpoint" {
+				if t != "" && !(protectPiko && (lt == "x-piko-forward" || lt == "x-piko-endpoint")) {
 					conn[textproto.CanonicalMIMEHeaderKey(t)] = true
 				}
 			}
@@ -471,18 +489,20 @@ func (e *httpEngine) req(ws []string, o *Out) string {
 		// net/http race (not piko's code): for a Content-Length request body the Transport probes
 		// the inbound body once more after the last byte; when the upstream has already answered
 		// and the proxy's server has closed the inbound body, that probe fails, the Transport
-		// closes the upstream connection under the response body being copied, ReverseProxy
-		// aborts - and, finding F9, gin turns the abort into a well-terminated short body.  Seen
-		// under CPU load.  The request is retried so that the comparison stays deterministic; a
-		// silently truncated attempt is reported under the known signature.
-		short := resp.err == nil && len(resp.body) < len(wantBody) && bytes.HasPrefix(wantBody, resp.body)
-		if !short || attempt >= 3 || bmode != "cl" {
+		// closes the upstream connection under the response body being copied and ReverseProxy
+		// aborts the client connection (seen under CPU load).  An aborted attempt is retried so
+		// that the comparison stays deterministic; a well-terminated short body is never
+		// acceptable (fix 6abbcc4) and is reported.
+		short := resp.err == nil && resp.berr == nil && len(resp.body) < len(wantBody) && bytes.HasPrefix(wantBody, resp.body)
+		if short {
+			o.Fail("C08", "truncated-as-complete", fmt.Sprintf("%s: the client received a well-terminated %d with %d of the %d body bytes the upstream sent", path, resp.status, len(resp.body), len(wantBody)))
+			break
+		}
+		aborted := resp.err != nil || resp.berr != nil
+		if !aborted || attempt >= 3 || bmode != "cl" {
 			break
 		}
 		o.Count("lib:transport-closed-upstream-early")
-		if resp.berr == nil {
-			o.Fail("C08", "truncated-as-complete", fmt.Sprintf("%s: the proxy's Transport closed the upstream connection under the response copy (request-body probe race); the client received a well-terminated %d with %d of %d bytes", path, resp.status, len(resp.body), len(wantBody)))
-		}
 		e.cur.rec.set(behaviour{kind: "normal", status: status, mode: rmode, body: rbody, headers: rh, seed: rseed})
 	}
 	o.Count("oracle:C08:req")
@@ -535,10 +555,10 @@ func (e *httpEngine) req(ws []string, o *Out) string {
 		if !bytes.Equal(r.body, body) {
 			o.Fail("C08", "e2e-body", fmt.Sprintf("sent %d bytes sha %x upstream saw %d bytes sha %x", len(body), sha256.Sum256(body), len(r.body), sha256.Sum256(r.body)))
 		}
-		if want := "[" + strings.Join(expectedVisible(hs), ",") + "]"; want != gotH {
+		if want := "[" + strings.Join(expectedVisible(hs, path != "agent"), ",") + "]"; want != gotH {
 			o.Fail("C08", "e2e-headers", "end-to-end request headers differ: "+diffLists(want, gotH))
 		}
-		if fwd != "true" {
+		if path != "agent" && fwd != "true" {
 			o.Fail("C08", "forward-marker", "x-piko-forward at the upstream = "+strconv.Quote(fwd))
 		}
 	} else if len(recs) >= 1 {
@@ -587,8 +607,8 @@ func (e *httpEngine) req(ws []string, o *Out) string {
 		sort.Strings(want)
 		if w := "[" + strings.Join(want, ",") + "]"; w != gotRH {
 			clause := "e2e-response-headers"
-			if status == 404 && len(resp.body) == 0 && strings.Join(resp.header.Values("Content-Type"), "|") == "text/plain" {
-				// gin's NoRoute default (see PikoModel/Proxy/Http.lean ginNoRouteRewrites)
+			if status == 404 && strings.Join(resp.header.Values("Content-Type"), "|") == "text/plain" {
+				// gin's NoRoute default answer instead of the upstream's 404 (regression of 694d302)
 				clause = "notfound-content-type-rewritten"
 			}
 			o.Fail("C08", clause, "response headers differ: "+diffLists(w, gotRH))
@@ -653,6 +673,12 @@ func (e *httpEngine) fail(ws []string, o *Out) string {
 	if T == 0 && strings.HasPrefix(kind, "slow") {
 		return "bad-op"
 	}
+	if path == "agent" && (kind == "noendpoint" || kind == "noupstream" || kind == "dialerr") {
+		return "bad-op"
+	}
+	if path != "fwd" && (kind == "noupstream-remote" || kind == "deadnode") {
+		return "bad-op"
+	}
 	e.cur.rec.set(b)
 	raw := "GET /x HTTP/1.1\r\nHost: 127.0.0.1\r\n" + hdr
 	if ep != "" {
@@ -662,9 +688,24 @@ func (e *httpEngine) fail(ws []string, o *Out) string {
 	resp := do(e.addr(path), "GET", []byte(raw), T+8*time.Second)
 	o.Count("oracle:C08:fail")
 	o.Count("fail:" + kind)
-	hang := resp.err != nil && resp.status == 0 && resp.wall >= T+2*time.Second || resp.wall >= T+2*time.Second
+	hang := resp.wall >= T+2*time.Second
 	if hang {
 		o.Fail("C08", "hang", fmt.Sprintf("%s/%s: no answer within timeout + 2 s (wall %v)", path, kind, resp.wall.Round(time.Millisecond)))
+	}
+	if strings.HasPrefix(kind, "closemid") {
+		// the upstream died after the header, inside the body: the client must observe an
+		// aborted response (no response at all, or a body that ends in an error) - or, on the
+		// forwarded path when the second node had not flushed a byte before it aborted, the
+		// first node's own 502 - never a well-terminated shorter body
+		aborted := resp.err != nil || resp.berr != nil
+		if !aborted && resp.status == 502 && strings.Contains(string(resp.body), "upstream unreachable") {
+			return "st=502 msg=" + Hx("upstream unreachable") + " hang=" + B01(hang)
+		}
+		if !aborted {
+			o.Fail("C08", "truncated-as-complete", fmt.Sprintf("%s/%s: the upstream died after %d of %d body bytes; the client received a well-terminated %d response with %d bytes",
+				path, kind, len(b.body)/2, len(b.body), resp.status, len(resp.body)))
+		}
+		return "aborted=" + B01(aborted) + " hang=" + B01(hang)
 	}
 	if resp.err != nil {
 		o.Fail("C08", "status-"+kind, "no response: "+resp.err.Error())
@@ -685,16 +726,7 @@ func (e *httpEngine) fail(ws []string, o *Out) string {
 	if resp.status >= 200 && resp.status < 300 && expect >= 400 {
 		o.Fail("C08", "fabricated-success", fmt.Sprintf("%s/%s answered %d", path, kind, resp.status))
 	}
-	out := "st=" + strconv.Itoa(resp.status) + " msg=" + Hx(msg) + " hang=" + B01(hang)
-	if strings.HasPrefix(kind, "closemid") {
-		trunc := resp.berr != nil
-		if !trunc && len(resp.body) != len(b.body) {
-			o.Fail("C08", "truncated-as-complete", fmt.Sprintf("%s/%s: the upstream died after %d of %d body bytes; the client received a well-terminated %d response with %d bytes",
-				path, kind, len(b.body)/2, len(b.body), resp.status, len(resp.body)))
-		}
-		out += " trunc=" + B01(trunc)
-	}
-	return out
+	return "st=" + strconv.Itoa(resp.status) + " msg=" + Hx(msg) + " hang=" + B01(hang)
 }
 
 // diffLists renders the difference of two printed header lists (multisets) readably.
